@@ -2,6 +2,8 @@ import KmipGen.CodecSrc
 import KmipModel.ExpectCodec
 import KmipModel.ExpectSkel
 import KmipGen.Skeleton
+import KmipGen.Dataflow
+import KmipModel.ExpectFlow
 /-
   C09, generated obligations: the operation skeletons of the server functions the session model mirrors, regenerated
   from /repo's server.go on every run, equal the reviewed expectations.
@@ -10,6 +12,10 @@ namespace Kmip
 theorem GenC09_serve_skeleton : KmipGen.skel_Server_serve = ExpectSkel.skel_Server_serve := by decide
 theorem GenC09_handleBatch_skeleton : KmipGen.skel_Server_handleBatch = ExpectSkel.skel_Server_handleBatch := by decide
 theorem GenC09_handleWrapped_skeleton : KmipGen.skel_Server_handleWrapped = ExpectSkel.skel_Server_handleWrapped := by decide
+/-- where the contexts come from: the session context is built once per connection (`sessionCtx.SessionID = session`, SessionAuth from
+    the callback), every request gets a COPY of it (`requestCtx.SessionContext = *session`) and its own RequestAuth -/
+theorem GenC09_serve_dataflow : KmipGen.flow_Server_serve = ExpectFlow.flow_Server_serve := by decide +kernel
+theorem GenC09_handleBatch_dataflow : KmipGen.flow_Server_handleBatch = ExpectFlow.flow_Server_handleBatch := by decide +kernel
 end Kmip
 
 namespace Kmip
